@@ -310,6 +310,11 @@ func trimErrorCodePrefix(err error, httpStatus int, errorCode string) string {
 	if errorCode != "" {
 		buf = buf[:0]
 		buf = appendErrorCodePrefix(buf, errorCode)
+		if msg == string(buf) {
+			// The message is nothing but the code prefix
+			// (a WireError with an empty message).
+			return ""
+		}
 		buf = append(buf, ": "...)
 		msg = strings.TrimPrefix(msg, string(buf))
 	}
